@@ -16,8 +16,24 @@ Fixpoint diff_indices_from (k : nat) (a b : list N) : list nat :=
   | _, _ => [k]
   end.
 
+(* at most [lim] indices: the driver reports the first few, and a result holding thousands of
+   (unary) nat indices costs gigabytes when a change breaks most of an enumerated space *)
+Fixpoint diff_indices_lim (lim k : nat) (a b : list N) {struct a} : list nat :=
+  match lim with
+  | O => []
+  | S lim' =>
+      match a, b with
+      | [], [] => []
+      | x :: a', y :: b' =>
+          if N.eqb x y then diff_indices_lim lim (S k) a' b' else k :: diff_indices_lim lim' (S k) a' b'
+      | _, _ => [k]
+      end
+  end.
+
+Definition REPORT_MAX : nat := 8.
+
 Definition sig_mismatches (fl tl : nat) (obs : list N) : list nat :=
-  diff_indices_from 0 (sig_model fl tl) obs.
+  diff_indices_lim REPORT_MAX 0 (sig_model fl tl) obs.
 
 Definition rand_ok (c : str * str * bool * bool) : bool :=
   let '(f, t, acc, mt) := c in
@@ -36,3 +52,95 @@ Definition mux_ok (c : list (str * nat) * str * list bool * list nat) : bool :=
 
 Definition mux_mismatches (cs : list (list (str * nat) * str * list bool * list nat)) : list nat :=
   indices_where (fun c => negb (mux_ok c)) cs.
+
+(* ---------- second exhaustive space: '$' in both alphabets; topics starting with '$' skipped
+   (outside the property).  Enumerated identically by c14.go (stringsUpto + the same filter). ---------- *)
+Definition alpha_fd : list N := [47; 43; 35; 97; 36].
+Definition alpha_td : list N := [47; 97; 36].
+
+Definition sigd_model (fl tl : nat) : list N :=
+  let topics := topics_upto alpha_td tl in
+  map (filter_signature topics) (strings_upto alpha_fd fl).
+
+Definition sigd_mismatches (fl tl : nat) (obs : list N) : list nat :=
+  diff_indices_lim REPORT_MAX 0 (sigd_model fl tl) obs.
+
+(* ---------- histories of Handle / Serve operations on several ServeMux instances ---------- *)
+
+Definition ev_eqb (a b : mux_ev) : bool :=
+  match a, b with
+  | EvHandle x, EvHandle y => Bool.eqb x y
+  | EvServe x, EvServe y => list_eqb Nat.eqb x y
+  | _, _ => false
+  end.
+
+(* V: the property predicate, position by position from the history (Filter.op_expected) *)
+Definition ops_prop_ok (c : list mux_op * list mux_ev) : bool :=
+  let '(ops, evs) := c in
+  Nat.eqb (length evs) (length ops)
+  && forallb (fun k => option_eqb ev_eqb (nth_error evs k) (op_expected ops k)) (seq 0 (length ops)).
+
+Definition ops_violations (cs : list (list mux_op * list mux_ev)) : list nat :=
+  indices_where (fun c => negb (ops_prop_ok c)) cs.
+
+(* M: the state machine model *)
+Definition ops_model_ok (c : list mux_op * list mux_ev) : bool :=
+  let '(ops, evs) := c in list_eqb ev_eqb evs (muxes_run muxes_empty ops).
+
+Definition ops_mismatches (cs : list (list mux_op * list mux_ev)) : list nat :=
+  indices_where (fun c => negb (ops_model_ok c)) cs.
+
+(* exhaustive histories: every sequence up to a length over 7 operations on 2 instances; the
+   handler registered by the operation at position p is handler p.  c14.go: c14ExhOp. *)
+Definition exh_alpha : list N := [0; 1; 2; 3; 4; 5; 6].
+
+Definition exh_op (pos : nat) (c : N) : mux_op :=
+  match c with
+  | 0 => OpHandle 0 [97] pos            (* m0.Handle("a")  *)
+  | 1 => OpHandle 0 [43] pos            (* m0.Handle("+")  *)
+  | 2 => OpHandle 0 [97; 43] pos        (* m0.Handle("a+") rejected *)
+  | 3 => OpServe 0 [97]                 (* m0.Serve("a")   *)
+  | 4 => OpServe 0 [98]                 (* m0.Serve("b")   *)
+  | 5 => OpHandle 1 [35] pos            (* m1.Handle("#")  *)
+  | _ => OpServe 1 [97]                 (* m1.Serve("a")   *)
+  end.
+
+Fixpoint exh_ops_from (pos : nat) (cs : list N) : list mux_op :=
+  match cs with
+  | [] => []
+  | c :: r => exh_op pos c :: exh_ops_from (S pos) r
+  end.
+
+(* one number per event (never 0), one number per history *)
+Definition ev_code (e : mux_ev) : N :=
+  match e with
+  | EvHandle false => 1
+  | EvHandle true => 2
+  | EvServe hs => 3 + 4 * fold_right (fun h acc => N.of_nat (S h) + 8 * acc) 0 hs
+  end.
+
+(* The observation sent for a history is the code of its LAST event (0 for the empty history):
+   every proper prefix of a history is itself in the enumeration and is run on fresh ServeMux
+   values of its own, so every event of every history is compared once.  (Large numerals are slow
+   to parse: one small number per history.)  c14.go additionally checks on the Go side that the
+   earlier events of a history equal those recorded for its prefixes. *)
+Definition last_code (evs : list mux_ev) : N :=
+  match rev evs with
+  | [] => 0
+  | e :: _ => ev_code e
+  end.
+
+Definition exh_prop_last (cs : list N) : N :=
+  let ops := exh_ops_from 0 cs in
+  match op_expected ops (pred (length ops)) with
+  | Some e => ev_code e
+  | None => 0
+  end.
+
+Definition exh_prop_codes (n : nat) : list N := map exh_prop_last (strings_upto exh_alpha n).
+
+Definition exh_model_codes (n : nat) : list N :=
+  map (fun cs => last_code (muxes_run muxes_empty (exh_ops_from 0 cs))) (strings_upto exh_alpha n).
+
+Definition exh_violations (n : nat) (obs : list N) : list nat := diff_indices_lim REPORT_MAX 0 (exh_prop_codes n) obs.
+Definition exh_mismatches (n : nat) (obs : list N) : list nat := diff_indices_lim REPORT_MAX 0 (exh_model_codes n) obs.
